@@ -20,6 +20,7 @@ def digests(pid, seed, n, stride):
     from sim import runner
 
     prop = runner.load_prop(pid)
+    n = min(n, getattr(prop, "SELFTEST_N", n))
     total, _ = prop.budget("quick")
     out = []
     for j in range(n):
